@@ -18,7 +18,7 @@ from mbt.drive import childorder as CO
 
 PID = "C10"
 ALL_OPS = ("Insert", "Add", "PublicAdd", "GetOrAdd", "RemoveAll", "ChangeTo")
-CFG = ("SPECIFICATION Spec\nCONSTANTS DEPTH = %d\n SUBSETS = %s\n MAXSLOTS = %d\nVIEW ViewSt\nINVARIANT TypeOK\n"
+CFG = ("SPECIFICATION Spec\nCONSTANTS DEPTH = %d\n SUBSETS = %s\n MAXSLOTS = %d\n L2OPS = {%s}\n L2MAXSLOTS = %d\nVIEW ViewSt\nINVARIANT TypeOK\n"
        "INVARIANT InitPermitted\nCHECK_DEADLOCK FALSE\n")
 _RE_INIT = re.compile(r"Finished computing initial states: (\d+) distinct state")
 
@@ -58,13 +58,13 @@ def printed_parallel(out: str, tag: str) -> list:
     return res
 
 
-def model_check(work, consts, name, depth, subsets, maxslots, workers=16, timeout=1500):
+def model_check(work, consts, name, depth, subsets, maxslots, workers=16, timeout=1500, l2ops=ALL_OPS, l2max=99):
     cpath = os.path.join(work, "cases_%s.json" % name)
     with open(cpath, "w") as f:
         json.dump(consts, f, separators=(",", ":"))
     cfg = os.path.join(work, "MC_ChildOrder_%s.cfg" % name)
     with open(cfg, "w") as f:
-        f.write(CFG % (depth, "TRUE" if subsets else "FALSE", maxslots))
+        f.write(CFG % (depth, "TRUE" if subsets else "FALSE", maxslots, ", ".join('"%s"' % o for o in l2ops), l2max))
     r = E.run_tlc("MC_ChildOrder", cfg, work=work, env={"CASES_FILE": cpath}, workers=workers, timeout=timeout, heap="16g")
     if r.invariant_violated:
         raise E.MachineryError("MC_ChildOrder[%s]: invariant %s violated (context builder produced a context that is not "
@@ -176,7 +176,10 @@ def main() -> int:
         return run_replay(rep, work, built, consts, replay)
 
     maxslots = 12
-    r, n_init, trs, cex, cpath = model_check(work, consts, "a", 2, thorough, maxslots)
+    # second step ("insert after insert"): the quick tier applies the inserting entry points only
+    l2ops = ALL_OPS if thorough else ("Insert", "PublicAdd", "GetOrAdd", "ChangeTo")
+    l2max = 99 if thorough else 16     # ... and only to element types of <= 16 slots (the three axis types are 20-23)
+    r, n_init, trs, cex, cpath = model_check(work, consts, "a", 2, thorough, maxslots, l2ops=l2ops, l2max=l2max)
     t_mc = r.wall
     t1 = time.time()
     steps, n_real = replay_all(built, trs)
